@@ -71,6 +71,17 @@ def run_shard(shard, tier, seed, wd, res):
         miller_fe(pairs)
         if rng.random() < 0.5 and n >= 1:
             s.op("pairing_multi", V.lst([p[0] for p, _ in pairs]), V.lst([q_[0] for _, q_ in pairs]))
+    # long lists (implementations may process pairs in blocks): pairing_multi_product and miller_loop with many pairs
+    for n in rng.sample([13, 15, 16, 17, 18, 24, 31, 32, 33, 40, 48, 64, 65, 100], 3 if tier == "quick" else 6):
+        pairs = [(rng.choice(pool1 + [id1] if rng.random() < 0.1 else pool1), rng.choice(pool2)) for _ in range(n)]
+        s.op("pairing_multi", V.lst([p[0] for p, _ in pairs]), V.lst([q_[0] for _, q_ in pairs]))
+        if rng.random() < 0.5:
+            miller_fe(pairs)
+    # n copies of (P,Q) and one ([-n]P, Q): the product must be exactly 1
+    n = rng.choice([16, 17, 33])
+    p, q_ = rng.choice(pool1), rng.choice(pool2)
+    pm = s.op("g1.to_affine", s.op("g1.amul", p[0], V.RR((-n) % R)))
+    s.op("pairing_multi", V.lst([p[0]] * n + [pm]), V.lst([q_[0]] * (n + 1)))
     # cancelling combinations: e(P,Q) * e(-P,Q) = 1; e([a]P,Q) e(P,[b]Q) e([-(a+b)]P,Q) = 1
     for _ in range(3):
         p, q_ = rng.choice(pool1), rng.choice(pool2)
